@@ -53,7 +53,7 @@ CHECKS.update({
               "DESIGN.md 6 C07", technique="TLA+ linearizability trace spec: TLC searches linearization points of recorded concurrent histories; plus trace validation of forced interleavings", engine="lin-trace"),
     "C15": _c("The real inotify translation (hook), the kernel-side mask of real marks for all 2^9 requested op sets, and the kqueue / Windows table functions compiled from the working "
               "tree's source are evaluated on all 2^16 / 2^11 / 2^13 flag combinations; TLC compares every record with Ops.tla and checks that the recorded input sets are complete; "
-              "design theorems (union homomorphism, request table exactness) are checked by TLC over all inputs (MC_Ops.tla).",
+              "design theorems (union homomorphism, request table exactness) are checked by TLC over all inputs (MC_Ops.tla). Watcher scenarios that add with explicit operation sets (withops, reops) are validated against Ideal.tla as well: subscription and translation end to end.",
               "Trusted: TLC; native constants as in golang.org/x/sys; for kqueue/Windows the functions are the working tree's source text compiled on Linux against constant stubs.",
               "DESIGN.md 6 C15", technique="TLA+ executable table specification evaluated by TLC over the complete input space, compared with records of the real functions", engine="ops-trace"),
     "C16": _c("Op.Has / Event.Has over all 2^16 low Op values (plus sampled high ones) x 40 probe sets, Op.String over the same values, Event.String over name shapes, compared by TLC with Ops.tla; "
